@@ -42,6 +42,7 @@ class Transcript:
         self.recs = {}          # pos -> [records] (toRecords)
         self.stats = {}         # pos -> (active list, rx)
         self.elapsed = {}       # pos -> ns
+        self.el = {}            # pos -> did elapsed() return Some
         for i, o in enumerate(outs):
             if i >= len(lines):
                 break
@@ -65,6 +66,9 @@ class Transcript:
                 self.ctx[i] = None if f[1] == "none" else (int(f[1], 16), f[2], f[3] == "1")
             elif o.startswith("elapsed 1~"):
                 self.elapsed[i] = int(o.split("~")[1])
+                self.el[i] = True
+            elif o.startswith("elapsed "):
+                self.el[i] = o.split()[1].startswith("1")
             elif o.startswith("cl "):
                 self.cl[i] = o == "cl 1"
             elif o.startswith("stats "):
@@ -347,6 +351,15 @@ def o_closures(spec, tr):
     for pos, exp in spec.closure_obs:
         if pos in tr.cl and tr.cl[pos] != exp:
             out.append("%r: closure %s, expected %s" % (tr.lines[pos], "invoked" if tr.cl[pos] else "not invoked", "invoked" if exp else "not invoked"))
+    return out + o_elapsed_some(spec, tr)
+
+
+def o_elapsed_some(spec, tr):
+    """C16/C18: elapsed() is Some exactly for a recording span"""
+    out = []
+    for pos, exp in getattr(spec, "elapsed_obs", []):
+        if pos in tr.el and tr.el[pos] != exp:
+            out.append("%r returned %s, but the span is %s" % (tr.lines[pos], "Some" if tr.el[pos] else "None", "recording" if exp else "not recording (no-op)"))
     return out
 
 
@@ -474,6 +487,7 @@ def o_times(spec, tr, times):
                 if a["id"] != b["id"] and a["begin"] + a["dur"] > b["begin"] + 1:
                     out.append("sibling local spans %r [%d,+%d] and %r [%d,+%d] overlap" % (a["name"], a["begin"], a["dur"], b["name"], b["begin"], b["dur"]))
     # elapsed()
+    out += o_elapsed_some(spec, tr)
     for pos, ns in tr.elapsed.items():
         v = tr.lines[pos].split()[2]
         born = None
